@@ -19,37 +19,37 @@ CHECKS = {
    "deterministic simulation: message substitution across sessions, wire corruption of the lock message, entropy faults, Byzantine customer; recovery after faults"),
  "C14": ("exploration", "4 (C14)",
    "Post-run check over the recorded message history of multi-channel runs: atom reuse against everything the merchant has seen, secrets of the customer's stage image at send time, and the commitment scalar masking each hidden value (computed from the customer's state and the merchant's challenge read through the hook): not revealed, full-size, not shared across link classes. A third of the runs inject a zero draw into the customer's generator.",
-   "deterministic simulation: recorded multi-channel histories, whole-history reuse / leakage / mask oracle, entropy faults"),
+   "deterministic simulation: recorded multi-channel histories, whole-history reuse / leakage / mask oracle; entropy faults (zero, stuck, reported failure with crash-and-restart of the customer)"),
  "C15": ("fault_enumeration", "4 (C15)",
    "Every atom of every harvested encoding replaced by each invalid / boundary encoding and decoded by the real decoder; plus a wire-on vs wire-off differential execution of seeded protocol histories.",
-   "fault enumeration on wire/storage atoms + differential simulated runs (in-process vs encoded hops)"),
+   "fault enumeration on wire/storage atoms (single, paired, all-of-a-kind; low-order points; repeated presentation) + differential simulated runs (in-process vs encoded hops)"),
  "C16": ("fault_enumeration", "4 (C16)",
    "Decoders fed mutated encodings (bincode, and serde_json as a second format) through slices and through a faulty Read (short reads, EINTR, EOF, I/O error) in a supervised worker process under a tracking, capped allocator.",
-   "fault enumeration: length-prefix / tag / atom corruption, truncation, stream faults, allocator cap, supervised worker process"),
+   "fault enumeration: length-prefix / tag / atom corruption, truncation, stream faults (short read, EINTR, EOF, error), long valid sequences, allocator cap and watchdog in a supervised worker process"),
  "C19": ("fault_enumeration", "4 (C19)",
    "Entropy-seam fault enumeration: an all-zero window of width 1-3 at every recorded draw point of every generator, plus crafted non-zero scalar streams (signing exponent zero, repeated secret scalars); outputs re-decoded through the crates' validating decoders and checked with pairing relations.",
-   "entropy fault enumeration at recorded draw points (SimRng seam)"),
+   "entropy fault enumeration at recorded draw points (SimRng seam): zero windows, multiples of the modulus, q-1, stuck generator, negated previous element, crafted streams"),
  "C20": ("fault_enumeration", "4 (C20)",
    "Twin execution: a never-stored customer vs a customer crashed and restored from its durable image at a drawn crash set, same keyed entropy, same replies; histories must be byte-identical.",
-   "crash/restore fault injection at drawn crash points, twin-run history comparison"),
+   "crash/restore fault injection at drawn crash points (slice and short-read stream restore), twin-run history comparison, entropy sweep before the store"),
  "C01": ("exploration", "4 (C01)",
    "Real merchant initialize/activate against a Byzantine customer drawn from a forger family (honest-but-lying, cross-slot, per-relation, post-challenge choice of every non-response field via the challenge hook); acceptance of a statement the actor knows to be false is confirmed by unblinding the returned signatures.",
-   "deterministic simulation: Byzantine prover actor with adaptive (re-ordered) moves observed through the challenge-recorder hook"),
+   "deterministic simulation: Byzantine prover actor (forger family incl. residual pairs, negated commitments) with adaptive (re-ordered) moves observed through the challenge-recorder hook"),
  "C02": ("exploration", "4 (C02)",
    "Same for allow_payment: false variants of the pay statement and post-challenge choice of each non-response field, plus a double-spend check over the merchant's acceptance history.",
-   "deterministic simulation: Byzantine prover actor, adaptive ordering via hook, acceptance-history oracle"),
+   "deterministic simulation: Byzantine prover actor (forger family incl. one-unverified-digit, algebraic token forgery), adaptive ordering via hook, acceptance-history oracle"),
  "C06": ("exploration", "4 (C06)",
    "An eavesdropper records every message of seeded histories and re-presents it in other sessions / channels / merchants and with one verifier-side tuple component substituted; closing messages re-assembled with one field replaced.",
    "deterministic simulation: cross-session replay and single-component substitution by an eavesdropper actor"),
  "C12": ("fault_enumeration", "4 (C12)",
    "In-flight alteration of each non-response atom of a proof after the challenge is fixed (other element, inverse element), wholesale swaps of same-shaped sub-structures, adjacent scalars trading a byte across their boundary; the verifier's challenge (public API at library level, hook inside initialize/allow_payment at zkAbacus level) must move.",
-   "tamper-after-challenge fault enumeration per atom, challenge observed through the hook"),
+   "tamper-after-challenge fault enumeration per atom (challenge observed through the hook); seeded interleaving of several challenge builders on one thread against a fresh-thread reference; challenge distribution"),
  "C17": ("exploration", "4 (C17)",
    "Ideal-ledger comparison over the property's full boundary lattice with overflow checks on, plus Byzantine wire-decoded amounts reaching the real merchant. Restricted claim: 'all 64-bit inputs' beyond lattice and random draws is sampled.",
    "deterministic simulation: boundary-lattice histories vs i128 ledger, Byzantine wire values"),
  "C18": ("fault_enumeration", "4 (C18)",
    "Entropy-seam fault: the close tag injected at every recorded scalar draw of Requested::new / Ready::start; re-typed replies and re-labelled pay tokens in histories; single-input changes of channel-id derivation.",
-   "entropy fault enumeration at recorded draw points, type-confusion replay in simulated histories"),
+   "entropy fault enumeration at recorded draw points (close tag and state-related values), type-confusion replay in simulated histories"),
 }
 
 NA = {
